@@ -1,4 +1,17 @@
 SPEC = dict(
+    manifest=dict(
+        text="Machine-checked theorems (Coq 8.16.1) about the executable model of util.NormalizeSKI and of the hub's six "
+             "SKI-taking entry points: normalisation is idempotent, ignores inserted spaces/dashes and ASCII case, and every "
+             "entry point's effect (new hub state, calls on the connection, callbacks and their arguments, answer) depends only "
+             "on the normalised SKI, for all strings and all hub states; plus the converse (an entry point that uses the raw "
+             "string as lookup key violates the property). Tie, checked on every run: the stripped characters and the "
+             "per-entry-point 'normalises first' table are regenerated from the Go AST, and differential cases run the real "
+             "util.NormalizeSKI and a real hub.Hub (fake connections) against the model inside Coq, where the property's "
+             "monitor is also evaluated on the implementation's own observations.",
+        note="Trusted: Coq kernel + vm_compute; the Go-AST translator (harness/cmd/extract); the hubunit driver and its fakes; "
+             "ASCII SKIs only (Go's Unicode ToLower is outside the model). No axioms (Print Assumptions: closed under the global context).",
+        technique="Coq proof (algebraic laws, case analysis over operations) + tables regenerated from source + differential correspondence",
+        ref="DESIGN.md §6 C15"),
     imports="From Ship Require Import Base Ski HubOps.",
     case_type="c15_case", check_fn="check_c15",
     drivers=[dict(bin="hubunit", args=["-prop", "C15"], n_quick=3000, n_thorough=60000)],
